@@ -4,6 +4,8 @@ CONSTANTS
     MaxTunnels = 2
     MaxLen = 6
     Protos <- MCProtos
+    Kinds <- TcpOnly
+    EchoEvery = 2
 INVARIANTS GaugesEqualLiveObjects ZeroWhenIdle EmitHistory
 CONSTRAINT Bound
 CHECK_DEADLOCK FALSE
